@@ -595,3 +595,74 @@ fn kf_xlsx_table_column_name_is_unescaped() {
     let t = wb.table_by_name("Temperature").unwrap();
     assert_eq!(t.columns()[0], "R&D <1>");
 }
+
+// C14 / R-TAB-PTG
+
+fn formula_rec_rgce(row: u16, col: u16, rgce: &[u8]) -> (u16, Vec<u8>) {
+    let mut d = Vec::new();
+    d.extend_from_slice(&row.to_le_bytes());
+    d.extend_from_slice(&col.to_le_bytes());
+    d.extend_from_slice(&0u16.to_le_bytes());
+    d.extend_from_slice(&1.0f64.to_le_bytes());
+    d.extend_from_slice(&0u16.to_le_bytes());
+    d.extend_from_slice(&0u32.to_le_bytes());
+    d.extend_from_slice(&(rgce.len() as u16).to_le_bytes());
+    d.extend_from_slice(rgce);
+    (0x0006, d)
+}
+
+#[test]
+fn kf_xls_reference_tokens_render_their_dollar_flags() {
+    // ExternSheet with one XTI pointing at sheet 0
+    let mut xti = 1u16.to_le_bytes().to_vec();
+    xti.extend_from_slice(&[0, 0, 0, 0, 0, 0]);
+    let recs = vec![
+        formula_rec_rgce(0, 0, &[0x44, 0, 0, 0x00, 0x80]),                      // $A1  (column absolute, row relative)
+        formula_rec_rgce(1, 0, &[0x44, 0, 0, 0x00, 0x40]),                      // A$1
+        formula_rec_rgce(2, 0, &[0x44, 4, 0, 0x1B, 0xC0]),                      // AB5 relative
+        formula_rec_rgce(3, 0, &[0x25, 0, 0, 1, 0, 0x00, 0xC0, 0x01, 0xC0]),     // A1:B2 relative
+        formula_rec_rgce(4, 0, &[0x25, 0, 0, 1, 0, 0x00, 0x00, 0x01, 0x00]),     // $A$1:$B$2
+        formula_rec_rgce(5, 0, &[0x5A, 0, 0, 0, 0, 0x01, 0xC0]),                // Sheet1!B1 relative
+        formula_rec_rgce(6, 0, &[0x5B, 0, 0, 0, 0, 1, 0, 0x00, 0xC0, 0x01, 0xC0]), // Sheet1!A1:B2 relative
+    ];
+    let stream = workbook_stream(&[(0x0017, xti)], &[0], &recs);
+    let mut wb: Xls<_> = Xls::new(Cursor::new(cfb_with_workbook(&stream))).unwrap();
+    let f = wb.worksheet_formula("Sheet1").unwrap();
+    let got: Vec<String> = (0..7).map(|r| f.get_value((r, 0)).cloned().unwrap_or_default()).collect();
+    // column lettering beyond Z is a separate (value-level) defect of push_column: row 2 only checks the flags
+    assert_eq!(got[0], "$A1");
+    assert_eq!(got[1], "A$1");
+    assert!(!got[2].contains('$') && got[2].ends_with('5'), "{}", got[2]);
+    assert_eq!(got[3], "A1:B2");
+    assert_eq!(got[4], "$A$1:$B$2");
+    assert_eq!(got[5], "Sheet1!B1");
+    assert_eq!(got[6], "Sheet1!A1:B2");
+}
+
+#[test]
+fn kf_xlsb_reference_tokens_render_their_dollar_flags() {
+    let src = fixture("date.xlsb");
+    let mut recs = xlsb_records(&member(&src, "xl/worksheets/sheet1.bin"));
+    let end = recs.iter().position(|r| r.0 == 0x92).unwrap();
+    let fmla = |col: u32, rgce: &[u8]| {
+        let mut p = Vec::new();
+        p.extend_from_slice(&col.to_le_bytes());
+        p.extend_from_slice(&0u32.to_le_bytes());
+        p.extend_from_slice(&1.0f64.to_le_bytes());
+        p.extend_from_slice(&0u16.to_le_bytes());
+        p.extend_from_slice(&(rgce.len() as u32).to_le_bytes());
+        p.extend_from_slice(rgce);
+        p.extend_from_slice(&0u32.to_le_bytes());
+        (0x0009u16, p)
+    };
+    recs.insert(end, fmla(5, &[0x25, 0, 0, 0, 0, 1, 0, 0, 0, 0x00, 0xC0, 0x01, 0xC0])); // A1:B2 relative
+    recs.insert(end, fmla(4, &[0x44, 0, 0, 0, 0, 0x00, 0x40]));                          // A$1
+    recs.insert(end, fmla(3, &[0x44, 0, 0, 0, 0, 0x00, 0x80]));                          // $A1
+    let bytes = rezip(&src, &[("xl/worksheets/sheet1.bin", xlsb_bytes(&recs))]);
+    let mut wb: Xlsb<_> = Xlsb::new(Cursor::new(bytes)).unwrap();
+    let name = wb.sheet_names()[0].clone();
+    let f = wb.worksheet_formula(&name).unwrap();
+    assert_eq!(f.get_value((2, 3)), Some(&"$A1".to_string()));
+    assert_eq!(f.get_value((2, 4)), Some(&"A$1".to_string()));
+    assert_eq!(f.get_value((2, 5)), Some(&"A1:B2".to_string()));
+}
